@@ -43,7 +43,7 @@ def run(ctx):
     sets, skips = {}, []
     if os.path.exists(ops):
         for line in open(ops):
-            if line.startswith("set "):
+            if line.startswith(("set ", "mset ")):
                 _, sid, spec = line.rstrip("\n").split(" ", 2)
                 sets[sid] = spec
             elif line.startswith("skip "):
